@@ -1296,7 +1296,7 @@ theorem resolveDeclare_explicit {nst : Nat} {a : DeclareArgs} {p : Proc} {d : Di
     (hdir : a.dir = some d) (htag : a.tag = none) (htn : a.tableNone = false) (hstack : a.stack = none)
     (hex : p.dirExists d = true) (htab : p.tableExists d a.name = true) (hroot : d.root < nst) :
     resolveDeclare nst a p = some ⟨d, .default, d.root⟩ := by
-  unfold resolveDeclare
+  unfold resolveDeclare resolveDirTable targetOf
   simp [hdir, htag, htn, hstack, hex, htab, hroot]
 
 end EupsModel.Db
